@@ -1,0 +1,70 @@
+//! Trace points of the session's outbound batch assembly (sessionx/actor.rs). The two call sites
+//! are single `#[cfg(rzmq_verif)]` lines placed after the assembly of `outgoing_batch` and before
+//! it is framed; they only read. Recording is off unless a harness switches it on.
+use crate::message::FrameBatch;
+use std::collections::VecDeque;
+use std::sync::atomic::{AtomicBool, Ordering};
+use std::sync::Mutex;
+
+#[derive(Debug, Clone)]
+pub struct VBatchTrace {
+  pub handle: usize,
+  /// 0 = carry-over branch, 1 = receive-from-core branch
+  pub branch: u8,
+  pub pending: usize,
+  pub sndhwm: usize,
+  pub sndbatch_count: usize,
+  pub max_count: usize,
+  pub max_bytes: usize,
+  pub logical_max_bytes: usize,
+  pub start_len: usize,
+  /// (wire size, tag) per message; tag = first 8 bytes of the last frame, big endian (0 if shorter)
+  pub batch: Vec<(usize, u64)>,
+  pub carry_after: Vec<(usize, u64)>,
+}
+
+static ENABLED: AtomicBool = AtomicBool::new(false);
+static SINK: Mutex<Vec<VBatchTrace>> = Mutex::new(Vec::new());
+
+pub fn enable(on: bool) {
+  ENABLED.store(on, Ordering::SeqCst);
+}
+pub fn take() -> Vec<VBatchTrace> {
+  std::mem::take(&mut *SINK.lock().unwrap())
+}
+
+fn describe(m: &FrameBatch) -> (usize, u64) {
+  let size = m.iter().map(|f| f.size() + 9).sum::<usize>();
+  let tag = m
+    .iter()
+    .last()
+    .and_then(|f| f.data())
+    .filter(|d| d.len() >= 8)
+    .map(|d| u64::from_be_bytes([d[0], d[1], d[2], d[3], d[4], d[5], d[6], d[7]]))
+    .unwrap_or(0);
+  (size, tag)
+}
+
+#[allow(clippy::too_many_arguments)]
+pub(crate) fn trace(
+  handle: usize, branch: u8, pending: usize, sndhwm: usize, sndbatch_count: usize, max_count: usize,
+  max_bytes: usize, logical_max_bytes: usize, start_len: usize, batch: &[FrameBatch], carry: &VecDeque<FrameBatch>,
+) {
+  if !ENABLED.load(Ordering::Relaxed) {
+    return;
+  }
+  let t = VBatchTrace {
+    handle,
+    branch,
+    pending,
+    sndhwm,
+    sndbatch_count,
+    max_count,
+    max_bytes,
+    logical_max_bytes,
+    start_len,
+    batch: batch.iter().map(describe).collect(),
+    carry_after: carry.iter().map(describe).collect(),
+  };
+  SINK.lock().unwrap().push(t);
+}
